@@ -1,6 +1,6 @@
 (** C11 — Chains act independently; results are deterministic and ordered.  Pinned statements only. *)
 From Coq Require Import Sorting.Permutation Sorting.Sorted.
-Require Import CF.Proofs.Tac CF.Model.Omics CF.Model.Pair CF.Model.Records CF.Model.Sections CF.Model.Machine
+Require Import CF.Proofs.Tac CF.Model.Omics CF.Model.Pair CF.Model.Records CF.Model.Sections CF.Model.Lapper CF.Model.Machine
   CF.Proofs.OmicsFacts CF.Proofs.RecordsFacts CF.Spec.Align CF.Proofs.AlignFacts CF.Proofs.MachineFacts CF.Proofs.LiftProps CF.Proofs.Examples.
 
 (** The result over a file is the multiset union of the results over any partition of its chains into two
@@ -25,6 +25,16 @@ Theorem C11_sorted : forall f m iv ps, Forall sec_ok f -> build_secs f = Val (Ok
   liftover m iv = Val (Some ps) -> StronglySorted (fun p q => fwd_lo (pref p) <= fwd_lo (pref q)) ps.
 Proof. exact liftover_sorted. Qed.
 Print Assumptions C11_sorted.
+
+(** The only nondeterminism in the implementation is the hash-map iteration order in which the per-contig
+    vectors are moved into the final map; any order gives the same answers, because the keys are distinct. *)
+Theorem C11_order_free : forall (inner inner' : list (contig * Lapper.lapper pair)) rd qd iv, NoDup (map fst inner) -> Permutation inner inner' ->
+  liftover {| minner := inner; mref := rd; mqry := qd |} iv = liftover {| minner := inner'; mref := rd; mqry := qd |} iv.
+Proof. exact liftover_order_free. Qed.
+Print Assumptions C11_order_free.
+Theorem C11_keys_distinct : forall f m, Forall sec_ok f -> build_secs f = Val (Ok m) -> NoDup (map fst (minner m)).
+Proof. exact build_keys_nodup. Qed.
+Print Assumptions C11_keys_distinct.
 
 (** Determinism: the model's answer is a function of the parsed file and the interval; the only
     nondeterminism in the implementation (hash-map iteration order when the per-contig vectors are moved into
